@@ -157,6 +157,8 @@ impl Runner {
                 "f" => match rd.fill_buf() { Ok(b) => { avail = b.len(); out.push(format!("ok:{}", hex(b))); } Err(e) => { out.push(format!("err:{}", kind(&e))); } },
                 "c" => { let k = arg.parse::<usize>().unwrap().min(avail); rd.consume(k); avail -= k; out.push(format!("c{}", k)); }
                 "r" => { let n: usize = arg.parse().unwrap(); let mut buf = vec![0u8; n]; match rd.read(&mut buf) { Ok(k) => { out.push(format!("ok:{}", hex(&buf[..k]))); avail = avail.saturating_sub(k); } Err(e) => out.push(format!("err:{}", kind(&e))) } }
+                // drain: fill_buf / consume(all) until the end or an error
+                "D" => { let mut got = vec![]; let status; loop { match rd.fill_buf() { Ok(b) if b.is_empty() => { status = "end".to_string(); break; } Ok(b) => { let l = b.len(); got.extend_from_slice(b); rd.consume(l); } Err(e) => { status = kind(&e); break; } } if got.len() > 10_000_000 { status = "runaway".to_string(); break; } } avail = 0; out.push(format!("D:{}:{}", hex(&got), status)); }
                 _ => out.push("bad".into()),
             }
         }
